@@ -23,7 +23,7 @@ CHECKS["C11"] = cfg(
     "C11", exhaustive=True,
     technique="runtime monitoring: exhaustive decision table over header pairs at 13 encoder/decoder entry points, verdict predicate written from the statement",
     level_text="The complete table of (protected, unprotected) header contents named by the property (alg, b64, 14 crit lists, shared registered/custom names, either header missing) is run through every encoder constructor, add_recipient, every decoder entry point and verify; each verdict is compared with a predicate derived from the statement. Exhaustive for the table, exploration beyond it.",
-    min={"quick": {"accepted": 3000, "rejected": 1000000, "rows_violating_exactly_one_rule": 1000},
+    min={"quick": {"shared_custom_name_value_rows": 250, "custom_value_rows": 500, "setter_built_reserved_name_value_rows": 20, "accepted": 3000, "rejected": 1000000, "rows_violating_exactly_one_rule": 1000},
          "thorough": {"accepted": 10000, "rejected": 4000000, "rows_violating_exactly_one_rule": 3000}},
     assumptions=["b64-disagreement between recipients is demanded of GeneralJwsEncoder::add_recipient only (the anchor); the general decoder is not judged on it",
                  "a header pair with neither header present is outside the table (the statement gives no verdict for it)"],
@@ -59,7 +59,7 @@ CHECKS["C18"] = cfg(
     "C18",
     technique="runtime monitoring: invariant monitors over every JWK observed (exhaustive private-member subsets x routes, random identity groups, odd JSON, setter histories, key generation) with own RFC 7638 reference",
     level_text="Every JWK built through constructors, setters, JSON (member permutations, family mismatches) and key generation is run through monitors: kty equals the family of the params carried, is_public iff no private member, to_public leaks nothing / keeps public members / is idempotent, thumbprint equals the harness's RFC 7638 computation and is invariant under optional members, order and private parts; verification-method constructors refuse private JWKs; generated output and documents are deep-scanned for private members.",
-    min={"quick": {"ext_converted": 3000, "ext_converted_source_kty_differs_from_variant": 2000, "container_jwks": 10000, "container_reads": 20000, "jwks_observed": 50000, "wellformed_built": 20000, "oracle_thumbprint_ref": 50000, "oracle_to_public": 40000,
+    min={"quick": {"unchecked_groups": 6000, "oracle_thumb_unchecked_invariance": 25000, "oracle_thumb_mismatched_with_private": 6000, "ext_converted": 3000, "ext_converted_source_kty_differs_from_variant": 2000, "container_jwks": 10000, "container_reads": 20000, "jwks_observed": 50000, "wellformed_built": 20000, "oracle_thumbprint_ref": 50000, "oracle_to_public": 40000,
                    "vm_private_refused": 100000, "vm_public_accepted": 40000, "odd_json_accepted": 200, "gen_outputs": 100,
                    "document_jwks_scanned": 150, "nontrivial": 2000},
          "thorough": {"jwks_observed": 2000000, "wellformed_built": 800000, "oracle_to_public": 1700000, "nontrivial": 20000}},
@@ -138,7 +138,7 @@ CHECKS["C16"] = cfg(
     "C16",
     technique="runtime monitoring: decision-table oracle over harness-assembled SD-JWTs, disclosures (own SHA-256 digests) and KB-JWTs; accept <=> all conditions; panic monitor",
     level_text="SD-JWT credentials (0-4 concealed claims + nested concealed claim, decoys, every disclosed subset, forged/foreign/duplicated/garbage/reordered disclosures, _sd_alg forms) and KB-JWTs (typ, kid/method id, scope, signature by another key, sd_hash over other concatenations, nonce, aud, iat at the inclusive window edges and a day either side of now) are assembled by the harness so each condition is true or false by construction; validate_credential / validate_key_binding_jwt must accept exactly when all hold, return the original credential with exactly the disclosed claims restored, and never panic.",
-    min={"quick": {"cred_accepted": 300, "cred_rejected": 600, "kb_accepted": 200, "kb_rejected": 700, "kb_rejected:signature": 100, "kb_rejected:sd_hash": 60,
+    min={"quick": {"kb_fixed_sweep_cases": 170, "kb_presentation_altered_after_signing": 100, "kb_rejected:empty-expectation-not-met": 20, "kb_via_wire_text": 200, "cred_accepted": 300, "cred_rejected": 600, "kb_accepted": 200, "kb_rejected": 700, "kb_rejected:signature": 100, "kb_rejected:sd_hash": 60,
                    "cred_rejected:disclosure-bound-to-signed-digest": 60, "two_issuers_accepted": 40, "two_issuers_rejected": 60, "distinct:condition_vectors": 60},
          "thorough": {"cred_accepted": 6000, "kb_accepted": 4000, "kb_rejected": 15000, "distinct:condition_vectors": 70}},
     assumptions=["a duplicated disclosure may be refused or accepted (latitude)",
@@ -234,8 +234,8 @@ CHECKS["C10"] = cfg(
 CHECKS["C17"] = cfg(
     "C17", exhaustive=True,
     technique="runtime monitoring: own IOTA DID grammar + (network, tag bytes) model as oracle over an exhaustive spelling grid and random families through all 8 construction paths; pairwise Eq/Ord/Hash against the model",
-    level_text="An exhaustive grid (scheme x method x network x prefix x tag length 62-66 x case/non-hex x suffix x whitespace) and random families of spellings are fed to every construction path (parse, FromStr, TryFrom<&str/String/CoreDID/BaseDIDUrl>, try_from_core, serde) and the builders; every accepted value must be the exact lowercase normal form with the default network elided and no URL parts, recompose from network_str/tag_str, round-trip through string/JSON/CoreDID, expose exactly the bytes/name given to new(), and be equal (and order/hash consistently) exactly when network and tag bytes are equal. NetworkName is driven through try_from, validate_network_name and serde (accepted exactly the 1-6 lowercase alphanumerics, builders never panic on an accepted name); from_alias_id is driven over alias-id shapes with embedded network segments (whatever it returns sits on the network passed in).",
-    min={"quick": {"accepted": 500000, "accepted_convert_paths": 200000, "value_checks": 400000, "must_accept_checks": 300000, "rejected": 300000, "pair_checks": 2000000,
+    level_text="An exhaustive grid (scheme x method x network x prefix x tag length 62-66 x case/non-hex x suffix x whitespace) and random families of spellings are fed to every construction path (parse, FromStr, TryFrom<&str/String/CoreDID/BaseDIDUrl>, try_from_core, serde) and the builders; every accepted value must be the exact lowercase normal form with the default network elided and no URL parts, recompose from network_str/tag_str, round-trip through string/JSON/CoreDID, expose exactly the bytes/name given to new(), and be equal (and order/hash consistently) exactly when network and tag bytes are equal. NetworkName is driven through try_from, validate_network_name and serde (accepted exactly the 1-6 lowercase alphanumerics, builders never panic on an accepted name); from_alias_id is driven over alias-id shapes with embedded network segments (whatever it returns sits on the network passed in); every &IotaDID handed out by IotaDocument::id() / controller() of documents accepted through JSON, the tuple conversion, From<CoreDocument> and state-metadata unpacking is judged by the validity clauses (and, under separate signatures, by the normal-form clause).",
+    min={"quick": {"doc_cases": 60000, "doc_accepted": 20000, "doc_refused": 30000, "doc_mixed_list_refused": 12000, "doc_state_metadata_malformed_iota_refused": 12000, "accepted": 500000, "accepted_convert_paths": 200000, "value_checks": 400000, "must_accept_checks": 300000, "rejected": 300000, "pair_checks": 2000000,
                    "pair_checks_equal_models": 800000, "new_checked": 10000, "netname_rejected": 3000, "grid_strings": 70000, "nontrivial": 2000,
                    "alias_shape_checks": 30000, "alias_shape_returned": 200, "netname_serde_checks": 12000, "netname_serde_accepted_valid": 5000, "netname_serde_rejected": 5000},
          "thorough": {"accepted": 20000000, "value_checks": 15000000, "pair_checks": 100000000, "grid_strings": 5000000, "nontrivial": 5000}},
@@ -262,7 +262,7 @@ CHECKS["C14"] = cfg(
     "C14",
     technique="runtime monitoring: symbolic-DID document model rendered for any concrete DID as oracle for pack / unpack / rebase; exhaustive header mutations, truncations, trailing bytes, size boundary",
     level_text="IOTA documents generated from mixes of self/foreign methods in every scope, references (incl. dangling), services, controllers, alsoKnownAs and custom properties are packed, unpacked for the same DID (must equal the original) and for other DIDs/networks (must equal the harness model rendered with the target DID: exactly the self references rewritten); the payload and header are checked against the model, every single-byte header mutation and truncation must be rejected, trailing bytes ignored, and pack must fail exactly beyond 65535 bytes. A second stage (harness/vhs, bin c14s) wraps packed documents into alias outputs with Ed25519 or alias state-controller/governor addresses and reads them back with IotaDocument::unpack_from_output for the same or another DID: everything but the ledger address fields must equal the harness model, and no controller of the packed document may be dropped.",
-    min={"quick": {"blocks_built": 400, "block_malformed_rejected": 250, "block_wellformed_accepted": 120, "block_documents_equal_model": 200, "pack_ok": 2000, "payload_matches_model": 2000, "unpack_ok": 2000, "roundtrip_same_ok": 2000, "rebase_ok": 5000, "self_refs_rewritten": 20000,
+    min={"quick": {"alias_output_alias_id_differs_from_passed_did": 500, "alias_output_alias_id_null": 100, "alias_output_target_same_tag_other_net": 40, "blocks_built": 400, "block_malformed_rejected": 250, "block_wellformed_accepted": 120, "block_documents_equal_model": 200, "pack_ok": 2000, "payload_matches_model": 2000, "unpack_ok": 2000, "roundtrip_same_ok": 2000, "rebase_ok": 5000, "self_refs_rewritten": 20000,
                    "foreign_refs_preserved": 20000, "header_mutations_rejected": 100000, "exhaustive_header_documents": 50, "truncations_rejected": 20000,
                    "trailing_ignored": 2000, "oversize_rejected": 16, "bytes_rejected_by_frame": 2000, "one_element_controller_array_inputs": 50, "nontrivial": 2000,
                    "alias_output_unpacked": 1000, "alias_output_other_did": 200, "alias_output_with_controllers_ed25519_state_controller": 200},
